@@ -71,6 +71,16 @@ func runWriters(t *testing.T, col *ev.Collector) {
 		col.Sample("writers/history", c)
 		return err
 	}
+	// `migrate import` from every supported source layout x 1-4 files (versions 1, 2, 10, 11: the tool's order differs
+	// from the byte order of the generated names; a Flyway repeatable migration): the written directory must validate
+	for fi := 0; fi < 4; fi++ {
+		for n := 1; n <= 4; n++ {
+			c := WCase{Ops: []WOp{{Kind: "import", File: fi, Stmts: append([]string{}, []string{"CREATE TABLE a (id integer)", "CREATE TABLE b (c text DEFAULT 'x;y')", "INSERT INTO a VALUES (1)", "CREATE TABLE c (id integer)"}[:n]...)}}}
+			if !ev.Each(col, "writers-import-formats", c, check, knownW) {
+				return
+			}
+		}
+	}
 	if !ev.Rapid(t, col, "writers-histories-api", col.N(1500, 100000), genWCaseAPI, check, knownW) {
 		return
 	}
